@@ -451,6 +451,17 @@ def gen(tier, rng, shard, nshards):
             yield art_line("b", hay, 0, None)
             if n >= 4:
                 yield art_line(kind_of(k), hay, rng.choice([None, 0, 1, 2]), rng.choice([None, 0, 1, 2, n - 4, n]), rng.choice([0, 0, 1, 2]))
+    # ---- (6b) ArtifactKit: large payloads (chunk-wise decoders): sizes around 64 KiB / 128 KiB, keys that do not divide the chunk
+    for size in ([65535, 65536, 65537, 70001, 131072 + 3] if thorough else [65537, 70001]):
+        if not mine():
+            continue
+        key = bytes(rng.randrange(1, 256) for _ in range(4))
+        pos = rng.choice([0, 1, 5])
+        payload = rng.randbytes(size)
+        hay = rng.randbytes(pos) + art_header(pos, size, key, rng.randbytes(8)) + payload + rng.randbytes(rng.choice([0, 3]))
+        if struct.unpack("<I", hay[0:4])[0] == 16 and pos:
+            hay = b"\x00" + hay[1:]
+        yield art_line(rng.choice(["b", "f"]), hay, 0, pos + 4, 0)
     # ---- (7) ArtifactKit: planted headers
     for _ in range((48000 if thorough else 8000) // nshards):
         hay, positions = gen_art_file(rng)
